@@ -243,32 +243,7 @@ func runC15(c *Ctx) {
 
 	// ---- C15.L: no size limit that the unsegmented Write can exceed
 	c.Rule("C15.L", "no websocket message-size limit on bridge connections (Write sends each write as one message of any length)", 1)
-	{
-		var lim []ssa.Instruction
-		ncalls := 0
-		for _, fn := range p.Funcs {
-			if !strings.HasPrefix(FuncName(fn), "utils/tcpbridge/") {
-				continue
-			}
-			EachInstr(fn, func(i ssa.Instruction) {
-				if cc := CallOf(i); cc != nil && strings.Contains(CalleeName(cc), "gorilla/websocket") {
-					ncalls++
-					if strings.HasSuffix(CalleeName(cc), ".SetReadLimit") {
-						lim = append(lim, i)
-					}
-				}
-			})
-		}
-		wsegments := false
-		if wr := p.Func("utils/tcpbridge/connection.(*WebsocketNetConn).Write"); wr != nil {
-			for _, wm := range Calls(wr, "(*github.com/gorilla/websocket.Conn).WriteMessage") {
-				if InLoop(wm.Block()) {
-					wsegments = true
-				}
-			}
-		}
-		c.Check("C15.L", "bridge:no-read-limit", p, posOf(lim), (len(lim) == 0 || wsegments) && ncalls >= 5, fmt.Sprintf("%d gorilla/websocket calls inspected in utils/tcpbridge, none sets a read limit", ncalls), fmt.Sprintf("a websocket read limit is set (%s) while WebsocketNetConn.Write still sends every Write as a single message of any length: one large write is rejected by the peer (close 1009) and the stream is cut", posStr(p, firstOf(lim))))
-	}
+	ruleNoReadLimit(c, p, "C15.L")
 
 	// ---- C15.P
 	sites := bridgeSites(p)
@@ -298,10 +273,20 @@ func runC15(c *Ctx) {
 				}
 			}
 		}
-		okwg := len(adds) == 1 && len(Calls(bs.Fn, "(*sync.WaitGroup).Wait")) == 1
+		// wg.Add(2), or wg.Add(1) in front of each go statement: constant Adds outside any loop,
+		// all executed before the Wait, summing to the number of goroutines
+		waits := Calls(bs.Fn, "(*sync.WaitGroup).Wait")
+		okwg := len(adds) >= 1 && len(waits) == 1
+		total := 0
+		for _, a := range adds {
+			n, isC := ConstInt(PArgs(CallOf(a))[1])
+			if !isC || n < 1 || a.Parent() != bs.Fn || (InLoop(a.Block()) && !InLoop(bs.Fn.Blocks[0])) || (okwg && !Dominates(a, waits[0])) {
+				okwg = false
+			}
+			total += int(n)
+		}
 		if okwg {
-			n, isC := ConstInt(PArgs(CallOf(adds[0]))[1])
-			okwg = isC && int(n) == dones && dones == len(bs.Gos)
+			okwg = total == dones && dones == len(bs.Gos)
 		}
 		c.Check("C15.P", name+":waitgroup-pairing", p, bs.Fn.Pos(), okwg, "wg.Add(n) equals the number of goroutines that defer wg.Done()", name+": wg.Add does not match the goroutines that call Done (the bridge hangs or returns while a direction is still copying)")
 	}
@@ -477,18 +462,28 @@ func closesConn(i ssa.Instruction, want map[ssa.Value]bool, depth int) bool {
 			found = true
 		}
 	})
-	return found
+	if !found {
+		return false
+	}
+	// … on every path through the closure: a close that is skipped when an earlier Close reported an
+	// error (tls.Conn.Close does, after the peer reset the connection) leaves the other socket open
+	hit, _ := (&Walk{Target: func(j ssa.Instruction) bool {
+		_, isR := j.(*ssa.Return)
+		return isR && j.Parent() == fn
+	}, Avoid: func(j ssa.Instruction) bool { return closesConn(j, want, depth+1) }, Ctx: fn}).FromBlock(fn.Blocks[0])
+	return hit == nil
 }
 
 func runC16(c *Ctx) {
 	p := c.Progs["mod"]
 	c.Rule("C16.K", "completion of either copy direction closes the pair", 4)
 	c.Rule("C16.D", "every acquired connection is released on exit", 4)
-	c.Rule("C16.A", "closing is orderly and cannot be blocked: no abortive-close socket option, Close never waits for a lock held across blocking I/O; no raw descriptor access; dial context not retained; dial bounded in time", 5)
+	c.Rule("C16.A", "closing is orderly and cannot be blocked: no abortive-close socket option, Close never waits for a lock held across blocking I/O; no raw descriptor access; dial context not retained; dial bounded in time; no message-size limit that cuts a stream short (= C15.L)", 6)
 	c16Orderly(c, p)
 	ruleNoRawDescriptor(c, p, "C16.A")
 	ruleDialContextNotRetained(c, p, "C16.A")
 	ruleDialHandshakeBounded(c, p, "C16.A")
+	ruleNoReadLimit(c, p, "C16.A")
 	sites := bridgeSites(p)
 	if len(sites) < 2 {
 		c.Bad("C16.K", "bridging-functions", p, 0, fmt.Sprintf("found %d bridging functions (2 confirmed by hand)", len(sites)))
@@ -731,4 +726,35 @@ func ruleNoAbortiveLinger(c *Ctx, p *Prog, rule string) {
 		}
 	}
 	c.Check(rule, "close:no-abortive-linger", p, posOf(linger), len(linger) == 0 && ncalls > 30, fmt.Sprintf("%d call sites of the bridge inspected: SO_LINGER is left at its default, so Close() sends queued data followed by FIN", ncalls), "SetLinger with a non-negative timeout at "+posStr(p, firstOf(linger))+": Close() on that connection discards data still queued in the kernel and resets the peer, so bytes sent just before the other side closed never arrive and the peer sees ECONNRESET instead of end-of-stream")
+}
+
+// ruleNoReadLimit: no websocket read limit on bridge connections while Write sends every write
+// as one (hex-encoded, i.e. twice as long) message of any length.
+func ruleNoReadLimit(c *Ctx, p *Prog, rule string) {
+	{
+		var lim []ssa.Instruction
+		ncalls := 0
+		for _, fn := range p.Funcs {
+			if !strings.HasPrefix(FuncName(fn), "utils/tcpbridge/") {
+				continue
+			}
+			EachInstr(fn, func(i ssa.Instruction) {
+				if cc := CallOf(i); cc != nil && strings.Contains(CalleeName(cc), "gorilla/websocket") {
+					ncalls++
+					if strings.HasSuffix(CalleeName(cc), ".SetReadLimit") {
+						lim = append(lim, i)
+					}
+				}
+			})
+		}
+		wsegments := false
+		if wr := p.Func("utils/tcpbridge/connection.(*WebsocketNetConn).Write"); wr != nil {
+			for _, wm := range Calls(wr, "(*github.com/gorilla/websocket.Conn).WriteMessage") {
+				if InLoop(wm.Block()) {
+					wsegments = true
+				}
+			}
+		}
+		c.Check(rule, "bridge:no-read-limit", p, posOf(lim), (len(lim) == 0 || wsegments) && ncalls >= 5, fmt.Sprintf("%d gorilla/websocket calls inspected in utils/tcpbridge, none sets a read limit", ncalls), fmt.Sprintf("a websocket read limit is set (%s) while WebsocketNetConn.Write still sends every Write as a single message of any length: one large write is rejected by the peer (close 1009) and the stream is cut", posStr(p, firstOf(lim))))
+	}
 }
